@@ -59,7 +59,7 @@ class XmlCodec:
             return 'N'
         return '(T' + ''.join(
             f' ({int(l.key)} ({self.f(l.red)} {self.f(l.green)} {self.f(l.blue)} {self.f(l.alpha)}) {self.s(l.label)})'
-            for l in t._labels.values()) + ')'
+            for l in (t[k] for k in t)) + ')'      # public mapping interface, insertion order
 
     def vox(self, v):
         if v is None:
